@@ -7,6 +7,9 @@ CHECKS = {
  "C05": dict(cat="model_checking", tech="Kani/CBMC bounded model checking of the compiled FsCommand::execute over a model file system with symbolic call failures",
              text="Bounded model checking (Kani 0.68 / CBMC 6.11, CaDiCaL) of the real compiled code of execute/safe_remove/move_* for one command: all subsets of failing FS calls and all kill points between model-FS effects are covered by one SAT query per operation. Right level because the property quantifies over fault positions and crash points of a short straight-line protocol.",
              note="Trusted: Kani's translation, the model file system stubs (POSIX atomic rename/link/unlink, two-step copy), unwind 2 with unwinding assertions. RefLink path and thin wrappers checked separately where listed in evidence.", ref="DESIGN.md §3 C05"),
+ "C10": dict(cat="other", engine="mirsym", tech="bounded symbolic execution of the MIR of the text report writer and reader over byte-list strings, z3 validity per token-class shape; native replay through the real writer/reader",
+             text="For file names of <= 2 tokens over 12 byte classes (3 over 4) the real write_as_text is executed symbolically, its emitted path / base-dir line bytes are fed to the symbolic execution of read_paths and of the base-dir handling in read_header, and z3 decides that the value read equals the value written and that cuts of the last path line are rejected. The command line is C17's join/split. JSON (serde_json), regexes and chrono are outside the encoding.",
+             note="Trusted: MIR front end, string summaries incl. the stfu8 model (validated natively in C17), the model of `^# Base dir: (.*)`; counterexamples are replayed natively.", ref="DESIGN.md §3 C10"),
  "C17": dict(cat="other", engine="mirsym", tech="bounded symbolic execution of the MIR of arg::quote/split over byte-list strings (symbolic bytes, concrete length), z3 validity per token-class shape; native translator validation; bash replay",
              text="For every argument built from <= 2 tokens over 17 byte classes and 3 tokens over 8 classes (thorough: more), with the concrete bytes chosen by the solver inside each class, z3 decides on the symbolic execution of the real quote / split state machine that split(quote(x)) == [x] and that a reference bash decoder returns x. Bounded: longer arguments are outside the claim; the stfu8 crate is a validated reference model.",
              note="Trusted: MIR front end, string summaries (lib/strsum.py) incl. the stfu8 model and the bash word model - both checked natively on every run (1055 concrete inputs; every counterexample replayed with the real functions and real bash).", ref="DESIGN.md §3 C17"),
